@@ -145,6 +145,19 @@ def run(tier):
                                                              "driver": "c10 replay", "schedule": sched, "detail": out.strip()[-1500:],
                                                              "broken": st["broken"]}, True)
                     break
+        # the counter-example finder that accompanies the theorems: search the model's schedule
+        # tree for a schedule on which the property fails in the model, replay it on the code
+        if not found and st["extract"] and st["cargo"]:
+            rc, out, _ = sh([DRIVER, "search", VARIANT, "5", "udfr"], timeout=600)
+            for ln in out.splitlines():
+                if ln.startswith("WITNESS "):
+                    _, kind, sched = ln.split()
+                    rc2, rout, _ = sh([HARNESS, "replay", sched], timeout=120)
+                    if rc2 == 1:
+                        found = True
+                        res.add_violation("model-witness", {"kind": "schedule", "signature": kind, "driver": "c10 replay", "schedule": sched,
+                                                           "detail": rout.strip()[-1500:], "broken": st["broken"]}, True)
+                        break
         if not found:
             for b in st["broken"]:
                 res.add_violation("obligation-" + b["obligation"].split()[0], {"kind": "obligation", **b}, False)
